@@ -1,7 +1,7 @@
 """C17 — the generated JavaScript binding denotes the same service interface (structural clauses)."""
 import re
 
-from facts import AnchorMissing, callee, nodes, unblock, walk
+from facts import AnchorMissing, expr_path, callee, nodes, unblock, walk
 from shared import Spec, arm_rows, the_match
 from c17_util import (BIND, LABEL, TI, Flat, NameFlow, Scope, alias_root, arm_binders, fshort, keyword_table, oracle, pat_binds, render,
                       root_local, var_binders)
@@ -348,6 +348,32 @@ def run(chk, facts, tier, only=None):
 
     # ------------------------------------------------------------------------------------------------ R3
     def r3():
+        # (0) membership in `recs` alone selects IDL.Rec() / .fill / .getType(): see c18.recs_decide_alone
+        def conj(e_, acc):
+            e_ = unblock(e_)
+            if e_.get("k") == "bin" and e_.get("op") == "And":
+                conj(e_["a"], acc)
+                conj(e_["b"], acc)
+            else:
+                acc.append(e_)
+            return acc
+        n_rec = 0
+        for nm in ("pp_defs", "pp_actor"):
+            g = fn(nm)
+            for i_ in nodes(g["body"], "if"):
+                if not any(x.get("k") == "mcall" and x["m"] == "contains" and (expr_path(x["recv"]) or "").split(".")[-1] == "recs" for x in walk(i_["c"])):
+                    continue
+                n_rec += 1
+                chk.expect(len(conj(i_["c"], [])) == 1, f"recs-membership-decides-alone:{nm}",
+                           f"javascript::{nm}: the test `recs.contains(id)` is combined with another condition (line {i_.get('ln')}): a recursive definition that fails "
+                           f"the other condition gets a plain `const`, and if the cycle is entered through it the constant is read before its declaration",
+                           where=f"{g['span']['file']}:{i_.get('ln')}", ok_detail="recs.contains(id) is the whole condition")
+            for x in walk(g["body"]):
+                if x.get("k") == "mcall" and x["m"] == "filter" and any(y.get("k") == "path" and (y.get("res") or {}).get("path") == "recs" for y in walk(x["recv"])):
+                    chk.bad(f"recs-membership-decides-alone:{nm}:filter", f"javascript::{nm} filters `recs` before printing the IDL.Rec() forward declarations "
+                                                                          f"(line {x.get('ln')}): the filtered-out members of a cycle are not forward-declared",
+                            where=f"{g['span']['file']}:{x.get('ln')}")
+        chk.floor("recs.contains tests in javascript::pp_defs / pp_actor", n_rec, 2)
         # (a) chase_type: post-order
         for name in ("chase_type",):
             h = c.fn("^" + re.escape(AN + name) + "$")
